@@ -1021,10 +1021,11 @@ impl<E: Effect> Environment<E> {
                 heap,
             } => self.handle_spawn(caller, function_index, captures, argument, heap),
             Event::DeliverAction {
+                sender,
                 target,
                 message,
                 heap,
-            } => self.handle_deliver(target, message, heap),
+            } => self.handle_deliver(sender, target, message, heap),
             Event::AwaitAction { awaiter, targets } => {
                 self.handle_await_processes(awaiter, targets)
             }
@@ -1228,9 +1229,9 @@ impl<E: Effect> Environment<E> {
         // Transfer ownership of any resources in captures or argument to the new process
         let mut transferred = false;
         for capture in &captures {
-            transferred |= self.transfer_resource_ownership(capture, new_pid);
+            transferred |= self.give_resources(caller, capture, new_pid);
         }
-        transferred |= self.transfer_resource_ownership(&argument, new_pid);
+        transferred |= self.give_resources(caller, &argument, new_pid);
 
         // Spawn process on chosen worker with function, captures, and argument
         self.workers[worker_id]
@@ -1261,6 +1262,27 @@ impl<E: Effect> Environment<E> {
             .map_err(|e| EnvironmentError::WorkerCommunication(e.to_string()))?;
 
         Ok(())
+    }
+
+    /// Recursively transfer ownership of the resources in a value that `giver` hands over to a
+    /// target process. Only its owner can give a resource away: the handle of a resource that
+    /// somebody else owns (the giver has sent the resource on and kept the handle) is a mere copy
+    /// of the name, and its recipient owns no more than the giver did.
+    /// Returns whether any resource changed hands.
+    fn give_resources(&mut self, giver: ProcessId, value: &Value, new_owner: ProcessId) -> bool {
+        match value {
+            Value::Resource(resource_id, _) => {
+                self.resource_ownership.get(resource_id) == Some(&giver)
+                    && self.transfer_resource_ownership(value, new_owner)
+            }
+            Value::Tuple(_, fields) => fields.iter().fold(false, |transferred, field| {
+                self.give_resources(giver, field, new_owner) || transferred
+            }),
+            Value::Function(_, captures) => captures.iter().fold(false, |transferred, capture| {
+                self.give_resources(giver, capture, new_owner) || transferred
+            }),
+            _ => false, // Other value types don't contain resources
+        }
     }
 
     /// Recursively transfer ownership of all resources in a value to a target process.
@@ -1305,12 +1327,13 @@ impl<E: Effect> Environment<E> {
 
     fn handle_deliver(
         &mut self,
+        sender: ProcessId,
         target: ProcessId,
         message: Value,
         heap: Vec<Vec<u8>>,
     ) -> Result<(), EnvironmentError> {
-        // Transfer ownership of any resources in the message to the target process
-        let transferred = self.transfer_resource_ownership(&message, target);
+        // Transfer ownership of the sender's resources in the message to the target process
+        let transferred = self.give_resources(sender, &message, target);
 
         let worker_id = self
             .process_router
